@@ -82,6 +82,7 @@ type fake struct {
 	g        *group.Group
 	kicked   atomic.Bool
 	view     map[string]bool // users this client believes are in its group (from add / delete events)
+	blk      func(point string) // forced schedules: called on entry of Joined / PushClient (a goroutine may be preempted there)
 	dupAdd   int
 	badDel   int
 }
@@ -107,9 +108,15 @@ func (c *fake) PushConn(g *group.Group, id string, up conn.Up, tracks []conn.UpT
 }
 func (c *fake) RequestConns(target group.Client, g *group.Group, id string) error { return nil }
 func (c *fake) Joined(g, kind string) error {
+	if c.blk != nil {
+		c.blk("joined:" + kind)
+	}
 	return nil
 }
 func (c *fake) PushClient(g, kind, id, username string, perms []string, data map[string]interface{}) error {
+	if c.blk != nil {
+		c.blk(kind + ":" + id)
+	}
 	c.mu.Lock()
 	if c.view == nil {
 		c.view = map[string]bool{}
@@ -590,6 +597,106 @@ func runConc(tr *vt.Trace, r *rand.Rand, round int) {
 	flush(tr)
 }
 
+// forcedViews: C14 under forced schedules.  The goroutine that delivers membership events is stopped at one delivery
+// (a fake client's callback blocks: a goroutine may be preempted anywhere) while another lifecycle operation runs to
+// completion -- or for 250 ms when the code under test makes that operation wait for the first one; afterwards every
+// remaining member's view must equal the membership.  Every pair (delivery point, concurrent operation) of the table.
+func forcedViews(tr *vt.Trace) {
+	type scen struct{ who, point, primary, other string }
+	var scens []scen
+	for _, other := range []string{"leave:u2", "leave:u1", "leave:u4", "join:u9", "leave:self"} {
+		for _, pp := range [][3]string{
+			{"u8", "joined:join", "join:u8"}, {"u8", "add:u2", "join:u8"}, {"u8", "add:u4", "join:u8"},
+			{"u1", "add:u8", "join:u8"}, {"u3", "add:u8", "join:u8"},
+			{"u1", "delete:u5", "leave:u5"}, {"u3", "delete:u5", "leave:u5"}, {"u4", "delete:u5", "leave:u5"},
+		} {
+			o := other
+			if o == "leave:self" {
+				if pp[0] == "u8" {
+					continue // the newcomer cannot leave before its join has returned
+				}
+				o = "leave:" + pp[0]
+			}
+			scens = append(scens, scen{pp[0], pp[1], pp[2], o})
+		}
+	}
+	for _, sc := range scens {
+		name := newGroup(cfgT{Window: "open"}, "forced-views")
+		cl := map[string]*fake{}
+		for _, id := range []string{"u1", "u2", "u3", "u4", "u5", "u8", "u9"} {
+			cl[id] = &fake{id: id}
+		}
+		for _, id := range []string{"u1", "u2", "u3", "u4", "u5"} {
+			join(name, cl[id])
+		}
+		do := func(op string) {
+			k, id, _ := strings.Cut(op, ":")
+			if k == "join" {
+				join(name, cl[id])
+			} else {
+				leave(cl[id])
+			}
+		}
+		otherDone := make(chan struct{})
+		var once sync.Once
+		reached := false
+		cl[sc.who].blk = func(point string) {
+			if point != sc.point {
+				return
+			}
+			once.Do(func() {
+				reached = true
+				go func() { do(sc.other); close(otherDone) }()
+				select {
+				case <-otherDone:
+				case <-time.After(250 * time.Millisecond):
+				}
+			})
+		}
+		ok := within(10*time.Second, func() {
+			do(sc.primary)
+			if reached {
+				<-otherDone
+			}
+		})
+		if !ok {
+			st := allStacks()
+			emit(map[string]any{"ev": "witness", "name": "forced_views_never_finished", "completed": 0,
+				"mutex_blocked": mutexBlocked(st), "close_blocked": 0, "add_blocked": vt.B(blockedInMutex(st, "group.AddClient"))})
+			flush(tr)
+			tr.Close()
+			os.Exit(0)
+		}
+		ms := members(name)
+		wrong := []string{}
+		for _, id := range ms {
+			c := cl[id]
+			if c == nil {
+				continue
+			}
+			c.mu.Lock()
+			v := []string{}
+			for x := range c.view {
+				v = append(v, x)
+			}
+			sort.Strings(v)
+			if strings.Join(v, ",") != strings.Join(ms, ",") || c.dupAdd > 0 || c.badDel > 0 {
+				wrong = append(wrong, fmt.Sprintf("%s sees [%s] dupAdd=%d badDel=%d", c.id, strings.Join(v, ","), c.dupAdd, c.badDel))
+			}
+			c.mu.Unlock()
+		}
+		emit(map[string]any{"ev": "views", "members": ms, "wrong": wrong, "forced": fmt.Sprintf("%s stopped at %s of %s while %s", sc.who, sc.point, sc.primary, sc.other), "reached": vt.B(reached)})
+		emit(map[string]any{"ev": "members", "m": ms})
+		for _, id := range ms {
+			if cl[id] != nil {
+				cl[id].blk = nil
+				leave(cl[id])
+			}
+		}
+		flush(tr)
+	}
+}
+
 // counts goroutines of the code under test that are blocked acquiring a mutex
 func mutexBlocked(stacks string) int {
 	n := 0
@@ -907,6 +1014,7 @@ func main() {
 		if vt.EnvInt("VERIF_STORM", 0) > 0 {
 			expiryStorm(tr, r)
 		}
+		forcedViews(tr)
 		for i := 0; i < vt.EnvInt("VERIF_N", 100); i++ {
 			i := i
 			if !within(30*time.Second, func() { runConc(tr, r, i) }) {
